@@ -11,16 +11,17 @@ from ..core import Result, fs, fl, fmat, F
 ID = "C10"
 RULE = ("seeded matrices n=1..6 (entries k/4 and k/100-style values with ties at the third decimal, negative values rounding to -0.00, last "
         "variable occurring only as a row / only as a column / not at all) x pattern x {Ising, QUBO} export: bytes of the file (minus the "
-        "timestamp line) vs the model's rendering, loader result vs the model, every coefficient listed once at its own indices, loaded energy "
+        "timestamp line) vs the model's rendering, loader result vs the model (record level and character level, the latter also on 10 edited variants of every file), every coefficient listed once at its own indices, loaded energy "
         "vs rounded in-memory energy on all spin vectors (n <= 7); plus the test-set generator on small horizons: file names vs variable counts, "
         "saved constraint data reloaded through the feasibility tester; non-trivial = n >= 2 with a non-zero off-diagonal coefficient; "
         "distinct = distinct (matrix, constant, pattern, mode)")
 ASSUMPTIONS = [
     "values are exact dyadic rationals, so '.2f' rounds the exact value half-to-even (modelled by round2)",
-    "the character-level layout is produced by the driver from the record-level model and compared byte-for-byte; parsing of the text by the loader is compared on the loader's output (test, not theorem)",
+    "the character-level layout is VrpModel/ExportText.renderLines (compared byte-for-byte with the real file); load_matrix is modelled line by line by ExportText.loadText (compared with the real loader on the written file and on edited files: size line right / wrong, 'p' line, blank line, tabs, missing / extra tokens, swapped records, second constant); Props/C10b proves loadText (renderLines f) = loadFile f",
+    "number syntax: the loader model accepts exactly the spellings export writes (digits; [ws][-]digits.dd[ws]) — int()/float() of Python accept more, which is outside the property",
     "file I/O, np.savez/pickle, the test-set generator and the feasibility tester are exercised, not proved",
 ]
-PARTIAL = ["text-level parse(render(records)) = records is carried by the byte comparison and the loader comparison, not by a theorem"]
+PARTIAL = []
 BUDGET_S = {"quick": 150, "thorough": 900}
 
 
